@@ -219,4 +219,40 @@ example : (mul_2exp 0 ex 1 1 65).ok = false := by decide
 -- … which goes unnoticed whenever no bit is shifted out of the top limb
 example : (mul_2exp 0 ex 0 2 65).ok = true := by decide
 
+/-- mpz_com (mpz/com.c), PARTIAL.  Proved: no bad access for every alias pattern and allocation (`size + 1` limbs
+    cover the carry store of the non-negative case, `size` limbs the negative case incl. the read of
+    `dst_ptr[size - 1]`), nothing else touched, and the destination equals the list-level result `Spec.com`
+    (Mpir/Model/AllocSafeMpz.lean).  Full statement:
+      `Safe s (mpz_com s w u) w (Spec.com (view (s.h w)) (view (s.h u))) ∧ toInt (view ((mpz_com s w u).h w)) = -toInt (view (s.h u)) - 1`;
+    missing: `Mpz.WF (Spec.com ..)` (top limb non-zero after the carry / the strip) and the value identity — both are
+    statements about `Spec.com` alone (C10 proves them for the sign-magnitude model Mpir.Bits.mpz_com, which carries no alloc). -/
+theorem mpz_com_alloc_safe_partial (s : St) (w u : Nat) (hs : s.ok = true) (hw : OWF (s.h w)) (hu : OWF (s.h u)) :
+    (mpz_com s w u).ok = true ∧ BWF ((mpz_com s w u).h w).buf ∧ (∀ x, x ≠ w → (mpz_com s w u).h x = s.h x) ∧
+    view ((mpz_com s w u).h w) = Spec.com (view (s.h w)) (view (s.h u)) := by
+  have R := com_refines s w u hs hw hu
+  exact ⟨R.ok, R.bwf, R.frame, R.view⟩
+
+-- ~(B^2-1) = -B^2 in place: three limbs in a block grown 2 → 3; ~0 = -1 into the one-limb destination
+example : (mpz_com ex 1 1).ok = true ∧ view ((mpz_com ex 1 1).h 1) = ⟨3, -3, [0, 0, 1]⟩ := by decide
+example : (mpz_com ex 0 0).ok = true ∧ view ((mpz_com ex 0 0).h 0) = ⟨1, -1, [1]⟩ := by decide
+-- negative: `_mpz_realloc (dst, size)` without the +1
+example : (com 0 ex 1 1).ok = false := by decide
+
+/-- mpz_tdiv_q_2exp (mpz/tdiv_q_2exp.c), PARTIAL.  Proved: no bad access (the source is read at
+    `up + limb_cnt` for `wsize = |usize| - limb_cnt` limbs — inside the operand; `wp[wsize - 1]` is inside what was
+    just written), nothing else touched, destination = the list-level result `Spec.tdiv_q_2exp`.  Full statement adds
+    `Mpz.WF (Spec.tdiv_q_2exp ..)` and `toInt = Int.tdiv (toInt u) (2 ^ cnt)`; missing: the value identity of
+    `mpn_rshift` on the dropped limbs composed with the strip (C02 proves the quotient for the Int-level model DivZ.tdiv_q_2exp). -/
+theorem mpz_tdiv_q_2exp_alloc_safe_partial (s : St) (w u : Nat) (cnt : Nat) (hs : s.ok = true)
+    (hw : OWF (s.h w)) (hu : OWF (s.h u)) :
+    (mpz_tdiv_q_2exp s w u cnt).ok = true ∧ BWF ((mpz_tdiv_q_2exp s w u cnt).h w).buf ∧
+    (∀ x, x ≠ w → (mpz_tdiv_q_2exp s w u cnt).h x = s.h x) ∧
+    view ((mpz_tdiv_q_2exp s w u cnt).h w) = Spec.tdiv_q_2exp (view (s.h w)) (view (s.h u)) cnt := by
+  have R := tdiv_q_2exp_refines s w u cnt hs hw hu
+  exact ⟨R.ok, R.bwf, R.frame, R.view⟩
+
+-- (B^2-1) >> 65 = 2^63 - 1 into the one-limb destination, and in place
+example : (mpz_tdiv_q_2exp ex 0 1 65).ok = true ∧ view ((mpz_tdiv_q_2exp ex 0 1 65).h 0) = ⟨1, 1, [2 ^ 63 - 1]⟩ := by decide
+example : (mpz_tdiv_q_2exp ex 1 1 64).ok = true ∧ view ((mpz_tdiv_q_2exp ex 1 1 64).h 1) = ⟨2, 1, [B - 1]⟩ := by decide
+
 end Mpir.AllocSafe
